@@ -38,7 +38,7 @@ COLLISIONS = [
     ("fooBar", "foo_bar"), ("fooBar", "FooBar"), ("foo-bar", "foo_bar"), ("foo.bar", "foo_bar"), ("a", "A"), ("class", "class_"), ("Class", "class"), ("value", "Value"),
     ("a1", "a_1"), ("a-b", "a.b"), ("é", "e"), ("type", "Type"), ("_a", "a"), ("a_", "a"), ("None", "none"), ("A_B", "a_b"), ("aB", "ab"), ("x", "x_"), ("Meta", "meta"),
 ]
-VALUE_COLLISIONS = COLLISIONS + [("1", "_1"), ("", " "), ("a b", "a_b"), ("1a", "a1"), ("-", "_"), ("a", "a "), ("1", "1.0"), ("A", "a")]
+VALUE_COLLISIONS = COLLISIONS + [("", "value"), ("", "VALUE"), ("value", ""), ("1", "_1"), ("", " "), ("a b", "a_b"), ("1a", "a1"), ("-", "_"), ("a", "a "), ("1", "1.0"), ("A", "a")]
 
 SLOTS = ["root", "e1", "e2", "e3", "a1", "a2", "t1", "s1", "v1", "v2", "v3"]
 SAME_SCOPE = [("e1", "e2"), ("a1", "a2"), ("t1", "s1"), ("v1", "v2"), ("e1", "a1"), ("root", "t1"), ("e2", "t1"), ("e3", "e1")]
@@ -141,6 +141,32 @@ def xsd_wrapper(n: dict) -> str:
   </xs:element>
   <xs:complexType name="{e(n["t1"])}">
     <xs:sequence><xs:element name="{e(n["e1"])}" type="xs:string" maxOccurs="unbounded"/></xs:sequence>
+  </xs:complexType>
+</xs:schema>
+'''
+
+
+def xsd_compound(n: dict) -> str:
+    """A repeating choice of two string elements (ambiguous for a compound field: the generator adds a reference class for each), an
+    element with an anonymous complex type (an inner class) and an element of a global type."""
+    e = I.esc_attr
+    return f'''<?xml version="1.0" encoding="UTF-8"?>
+<xs:schema xmlns:xs="http://www.w3.org/2001/XMLSchema" targetNamespace="urn:t" xmlns:t="urn:t" elementFormDefault="qualified">
+  <xs:element name="{e(n["root"])}">
+    <xs:complexType>
+      <xs:choice maxOccurs="unbounded">
+        <xs:element name="{e(n["e1"])}" type="xs:string"/>
+        <xs:element name="{e(n["e2"])}" type="xs:string"/>
+        <xs:element name="{e(n["e3"])}">
+          <xs:complexType><xs:sequence><xs:element name="inner" type="xs:int"/></xs:sequence><xs:attribute name="{e(n["a2"])}" type="xs:int"/></xs:complexType>
+        </xs:element>
+        <xs:element name="item" type="t:{e(n["t1"])}"/>
+      </xs:choice>
+      <xs:attribute name="{e(n["a1"])}" type="xs:string"/>
+    </xs:complexType>
+  </xs:element>
+  <xs:complexType name="{e(n["t1"])}">
+    <xs:sequence><xs:element name="label" type="xs:string" minOccurs="0"/></xs:sequence>
   </xs:complexType>
 </xs:schema>
 '''
@@ -332,6 +358,8 @@ def h_xsd(ch: Chooser, kind: str):
         rel = ch.flag("relative-imports", free=True)
     elif kind == "xsd-wrapper":
         oi = [i for i, o in enumerate(OPTIONS) if o[0] in ("default", "wrapper", "compound")][ch.choose(3, "wrapper-option", free=True)]
+    elif kind == "xsd-compound":
+        oi = [i for i, o in enumerate(OPTIONS) if o[0] in ("compound", "compound-forced")][ch.choose(2, "compound-option", free=True)]
     else:
         oi = ch.choose(len(OPTIONS), "options")
     oname, opts, conv = OPTIONS[oi]
@@ -344,6 +372,8 @@ def h_xsd(ch: Chooser, kind: str):
             oname += "+relative"
     elif kind == "xsd-wrapper":
         sources = {"main.xsd": xsd_wrapper(n)}
+    elif kind == "xsd-compound":
+        sources = {"main.xsd": xsd_compound(n)}
     elif kind == "xsd-no-namespace":
         sources = {"main.xsd": xsd_skeleton(n, None)}
     else:
@@ -511,6 +541,7 @@ def run(tier: str, seed: int) -> int:
         tasks.extend(split_deep(("c07.xsd", dict(kind=kind), opt_bound if kind == "xsd" else 0, ()), short=4, rounds=3))
     tasks.extend(split_deep(("c07.xsd", dict(kind="xsd-two-namespaces"), 0, ()), short=4, rounds=3))
     tasks.extend(split_deep(("c07.xsd", dict(kind="xsd-wrapper"), 0, ()), short=4, rounds=3))
+    tasks.extend(split_deep(("c07.xsd", dict(kind="xsd-compound"), 0, ()), short=4, rounds=3))
     # every option set on the default names (and on a fixed hostile assignment) in both tiers
     tasks.append(("c07.xsd", dict(kind="xsd"), 1, (0,)))
     tasks.extend(split_deep(("c07.samples.xml", dict(max_elems=3 if th else 2), 2 if th else 1, ()), short=3, rounds=2))
